@@ -67,7 +67,7 @@ def main():
             "checks": {c: {"exit": v["rc"], "violation_lines": v.get("violations", [])[:2], "summary": (v.get("tail") or [""])[0][-160:]}
                        for c, v in r.get("checks", {}).items()},
             "caught_by_own_check": own,
-            "runs": ent["history"],
+            "runs": [{"run": g, "exit_codes": h} for g, h in sorted(ent["history"])],
         })
         json.dump(meta, open(os.path.join(dst, "meta.json"), "w"), indent=1)
     with open(os.path.join(OUT, "RESULTS.md"), "w") as f:
